@@ -755,14 +755,18 @@ def _features_check(prop, tier, rule, assumptions, layouts):
     r = _srv("features", res["out"], prop.lower() + "_sim", exe, ["props=" + prop, "layouts=" + layouts], timeout=7200)
     c.add_harness(_only_prop(r, prop), "simulated large programs")
     os.remove(res["out"])
-    c.assumptions = assumptions + ["programs stay inside the uncontroversial core of SPL: no local shadows a global name, types declared before use"]
+    c.assumptions = assumptions + ["types are declared before use; a local never carries the name of its OWN procedure (the server resolves the name in a procedure's header through the local table as well, an observed defect); the situations of the site-identified known findings are tagged, everything else is a violation"]
     c.exhaustive = True
     c.finish()
 
 
-_FEAT_COMMON = ("Well-typed programs of SplStatic (all up to the token bound with 1-3 declarations, simulated 140-token programs with 3-5 "
-                "declarations in any order); every identifier terminal carries the declaration it is bound to and its role, the case carries "
-                "the declaration table (kind, name, ref, resolved type, creating type declaration). ")
+_FEAT_COMMON = ("Well-typed programs of SplStatic: ALL up to the token bound with 1-3 declarations (valid, valid3s); all with locals named like "
+                "declared procedures, declared types and predefined entities (shadow, shadowt); ALL statement structures of a one-procedure "
+                "program with minimal expressions up to 20-22 tokens (body); all one-procedure programs with the full expression grammar up "
+                "to 18-20 tokens (expr18/20); simulated 180-token programs with 3-5 declarations in any order and balanced statement shapes. "
+                "Every identifier terminal carries the declaration it is bound to and its role, the case carries the declaration table (kind, "
+                "name, ref, resolved type, creating type declaration); generator and the independent checker SplCheck agree on every program "
+                "(invariant CheckAgrees); expression literals are re-spelled from a pool of all literal lexeme classes. ")
 
 
 def c12(tier):
